@@ -82,6 +82,7 @@ class State:
         self.axioms_used = set()
         self.assumed = set()     # names of assumed contracts used on this path
         self.solver_unknowns = 0
+        self.quantified = 0
         for a in assumptions:
             self.assume(a)
 
@@ -109,7 +110,12 @@ class State:
         if z3.is_false(cond):
             raise Infeasible()
         self.pc.append(cond)
-        self.solver.add(cond)
+        if _has_quantifier(cond):
+            # quantified facts (invariants, page descriptions) are used in the validity proofs only;
+            # path feasibility is decided on the quantifier-free part (over-approximation: sound)
+            self.quantified += 1
+        else:
+            self.solver.add(cond)
 
     def _sat(self, cond):
         r = self.solver.check(cond)
@@ -192,6 +198,21 @@ class State:
 
     def effect(self, kind, **info):
         self.trace.append((kind, info))
+
+
+def _has_quantifier(t, _seen=None):
+    seen = set() if _seen is None else _seen
+    stack = [t]
+    while stack:
+        x = stack.pop()
+        i = x.get_id()
+        if i in seen:
+            continue
+        seen.add(i)
+        if z3.is_quantifier(x):
+            return True
+        stack.extend(x.children())
+    return False
 
 
 class Path:
@@ -384,6 +405,15 @@ class SeqV:
 
     def __repr__(self):
         return 'SeqV(%s)' % self.t
+
+
+class Batch:
+    """All elements value(i), 0 <= i < n, of a symbolic sequence, collected by one summarised loop."""
+
+    def __init__(self, seq, index, value):
+        self.seq = seq
+        self.index = index
+        self.value = value
 
 
 class StarPack:
@@ -1074,12 +1104,17 @@ class Interp:
         if inv is not None:
             return inv.run(self, s, fr, iterable)
         if isinstance(s, ast.For):
+            if self.try_batch_collect(s, fr, iterable):
+                return
             items = self.env.iterate(self, iterable)
             if items is NotImplemented:
                 raise Unsupported('for over %r without loop invariant (line %d)'
                                   % (iterable, s.lineno))
             broke = False
             for x in items:
+                if isinstance(x, Batch):
+                    self.run_batch_body(s, fr, x)
+                    continue
                 self.assign(s.target, x, fr)
                 try:
                     self.exec_block(s.body, fr)
@@ -1112,6 +1147,50 @@ class Interp:
                 # repeats one already explored from the loop entry
                 self.st.effect('LOOP_CUT', line=s.lineno)
                 raise PathEnd()
+
+    def try_batch_collect(self, s, fr, iterable):
+        """`for x in <symbolic sequence>: collector(<expr>)` where collector is list.append:
+        the list receives one Batch element (order and multiplicity preserved by construction)."""
+        from .loops import SymSeq
+        if not isinstance(iterable, SymSeq) or s.orelse or len(s.body) != 1:
+            return False
+        b = s.body[0]
+        if not (isinstance(b, ast.Expr) and isinstance(b.value, ast.Call) and len(b.value.args) == 1
+                and not b.value.keywords):
+            return False
+        f = self.eval(b.value.func, fr)
+        target_list = getattr(f, 'append_target', None)
+        if target_list is None:
+            return False
+        i = self.st.fresh('batch_i', z3.IntSort())
+        saved = dict(fr.locals)
+        self.assign(s.target, iterable.elem(i), fr)
+        v = self.eval(b.value.args[0], fr)
+        fr.locals.clear()
+        fr.locals.update(saved)
+        target_list.append(Batch(iterable, i, v))
+        self.st.effect('BATCH_COLLECT', seq=iterable, index=i, value=v)
+        return True
+
+    def run_batch_body(self, s, fr, batch):
+        """Loop body for every element of a Batch: executed once for the generic element with the
+        batch context set; environment effects (file removal) apply to the whole batch."""
+        st = self.st
+        body = s.body
+        guard = z3.BoolVal(True)
+        self.assign(s.target, batch.value, fr)
+        # supported shapes: `call(x)`  or  `if x is not None: call(x)`
+        if len(body) == 1 and isinstance(body[0], ast.If) and not body[0].orelse:
+            t = self.truth(self.eval(body[0].test, fr))
+            guard = z3.BoolVal(t) if isinstance(t, bool) else t
+            body = body[0].body
+        if not all(isinstance(b, ast.Expr) and isinstance(b.value, ast.Call) for b in body):
+            raise Unsupported('loop body over a collected batch (line %d)' % s.lineno)
+        st.ghost['batch'] = (batch, guard)
+        try:
+            self.exec_block(body, fr)
+        finally:
+            st.ghost['batch'] = None
 
     def snapshot(self, fr):
         loc = dict(fr.locals)
